@@ -58,7 +58,9 @@ def getHandler(
     statresult = None
     try:
         statresult = vfs.stat(selector)
-    except OSError:
+    except (OSError, ValueError):
+        # ValueError: the selector contains a NUL byte.  Such a selector is
+        # refused by isrequestsecure() below, like any other missing file.
         pass
     for handler in handlerlist:
         htry = handler(selector, searchrequest, protocol, config, statresult, vfs)
